@@ -257,6 +257,31 @@ def header_parts(st: ast.AST) -> List[ast.AST]:
     return [st]
 
 
+LAZY_CONSUMERS = {"zip", "map", "filter", "enumerate", "iter", "reversed", "itertools.chain", "chain", "itertools.islice", "islice", "itertools.starmap", "starmap",
+                  "itertools.zip_longest", "zip_longest", "itertools.product", "itertools.accumulate", "itertools.takewhile", "itertools.dropwhile"}
+
+
+def eager_walk(node: ast.AST):
+    """ast.walk restricted to what is evaluated when the statement runs: does not descend into lambdas, nested definitions, nor into a
+    generator expression that is not consumed on the spot (bound to a name, returned, or handed to zip / map / filter / enumerate / iter /
+    itertools: its body runs later, when - and if - it is iterated)."""
+    todo = [(node, None)]
+    while todo:
+        n, parent = todo.pop()
+        if n is not node and isinstance(n, (ast.Lambda, ast.FunctionDef, ast.AsyncFunctionDef, ast.ClassDef)):
+            continue
+        if isinstance(n, ast.GeneratorExp):
+            consumed = isinstance(parent, ast.Call) and n in parent.args and ast.unparse(parent.func) not in LAZY_CONSUMERS
+            if not consumed:
+                yield n
+                # the outermost iterable is evaluated eagerly, the rest lazily
+                todo.append((n.generators[0].iter, n))
+                continue
+        yield n
+        for c in ast.iter_child_nodes(n):
+            todo.append((c, n))
+
+
 def header_walk(st: ast.AST):
     for part in header_parts(st):
-        yield from ast.walk(part)
+        yield from eager_walk(part)
